@@ -3,7 +3,7 @@
 From Coq Require Import Ascii String List Bool Arith ZArith NArith.
 From PTBase Require Import Exn PyStr PyNum PyVal Fmt FixedFormat.
 From Gen Require Import GenTables GenMulgrid.
-From P Require Import Flt Lines MulgridIO RoundTrip Header Idem Fields Natural Canon Feet Rounding RealIdem NatIdem Examples.
+From P Require Import Flt Lines MulgridIO RoundTrip Header Idem Fields Natural Canon Feet Rounding RealIdem NatIdem Examples NameLists SciIdem HdrIdem.
 Import ListNotations.
 
 (** ** finite obligations over the regenerated tables *)
@@ -94,6 +94,19 @@ Theorem canonical_names_kept : forall g, str_eqb (h_type (canon_header (g_hdr g)
 Proof. exact canon_keeps_names. Qed.
 Print Assumptions canonical_names_kept.
 
+(** the derived block and connection name lists (model: field-trimmed copy of the C04 transcription
+    of setup_block_name_index / setup_block_connection_name_index, run against the implementation
+    every run) are identical for the re-read geometry, provided names are right-justified and every
+    comparison  surface > layer bottom,  surface <= layer top  comes out the same after the trip
+    ([cmp_ok]: fails only when two different elevations print as the same decimal) *)
+Theorem name_lists_equal : forall g, hdr_ok (g_hdr g) = true ->
+  str_eqb (h_type (canon_header (g_hdr g))) (s2l supported_type) = true ->
+  names_canonical g = true -> cmp_ok g = true ->
+  block_name_list (geom_of (canon g)) = block_name_list (geom_of g) /\
+  block_connection_name_list (geom_of (canon g)) = block_connection_name_list (geom_of g).
+Proof. exact name_lists_kept. Qed.
+Print Assumptions name_lists_equal.
+
 (** ** header options *)
 Theorem header_round_trip : forall h, hdr_ok h = true ->
   canon_header h = let p := hdr_pre h in
@@ -135,12 +148,29 @@ Theorem real_field_idem : forall f s x, ft f = Tf -> (1 <= prec f <= 2)%Z -> (wi
   res_str_eqb (fmt_field f (vreal (dy_div (rt_num f s s x) s))) (fmt_field f (vreal (dy_div x s))) = true.
 Proof. exact real_idem. Qed.
 Print Assumptions real_field_idem.
-(** byte for byte from arithmetic hypotheses ([nidem_ok]): every record value fits its field,
-    names are right-justified to the convention's length, every layer centre either prints non-zero
-    or is re-derived by the reader to the same text, and the header line re-formats to itself (the
-    two evaluated checks left: zero-printing centres, the header's %10.2e fields) *)
-Theorem mulgrid_write_idem : forall g, nidem_ok g = true -> write (canon g) = write g.
-Proof. exact write_idem. Qed.
+(** the %w.pe fields of the header: the mantissa/exponent pair printed for a positive double x
+    (p <= 14 decimals, decimal exponent >= -300) is printed again for the double nearest the
+    printed decimal -- relative error 2^-53 of [round53] in the normal range, [ilog10]/[sci] specified *)
+Theorem sci_digits_survive : forall p x, (0 <= p <= 14)%Z -> (0 < dm x)%Z ->
+  let num := fst (num_den (dm x) (de x)) in let den := snd (num_den (dm x) (de x)) in
+  let N := fst (sci p num den) in let k := snd (sci p num den) in
+  (-300 <= k)%Z ->
+  let d := dy_of_dec (dneg x) (Z.to_N N) (k - p) in
+  (0 < dm d)%Z /\ dneg d = dneg x /\ sci p (fst (num_den (dm d) (de d))) (snd (num_den (dm d) (de d))) = (N, k).
+Proof. exact sci_trip. Qed.
+Print Assumptions sci_digits_survive.
+(** the header line re-formats to itself when its reals fit their fields (arithmetic; no run of
+    the writer on the re-read header in the hypothesis) *)
+Theorem header_line_idem : forall h sc, hdr_ok h = true -> unit_scale_of (h_unit h) = Ok sc -> hdr_fits h = true ->
+  write_values hspecs (header_vals hnames (canon_header h)) = write_values hspecs (header_vals hnames h).
+Proof. exact header_line_same. Qed.
+Print Assumptions header_line_idem.
+(** byte for byte from arithmetic hypotheses ([aidem_ok]): every record value fits its field, the
+    header's reals fit theirs, names are right-justified to the convention's length, and every
+    layer centre either prints non-zero or is re-derived by the reader to the same text (the one
+    evaluated check left: it is where the clause genuinely fails, see the next theorem) *)
+Theorem mulgrid_write_idem : forall g, aidem_ok g = true -> write (canon g) = write g.
+Proof. exact write_idem_arith. Qed.
 Print Assumptions mulgrid_write_idem.
 (** ... and the hypothesis cannot simply be dropped: with a layer whose centre prints as 0.00
     the reader re-derives the centre from the printed bottoms and the second file differs
@@ -161,6 +191,6 @@ Print Assumptions feet_roundtrip.
     a raised surface, a layer centred on 0.0 and a well *)
 Theorem hypotheses_satisfiable : wf ex_geo = true /\ nwf ex_geo = true /\ idem_ok ex_geo = true /\
   (h_unit (g_hdr ex_geo) = feet /\ str_eqb (h_type (canon_header (g_hdr ex_geo))) (s2l supported_type) = true) /\
-  nidem_ok ex_geo2 = true.
-Proof. exact (conj ex_geo_wf (conj ex_geo_nwf (conj ex_geo_idem (conj ex_geo_feet ex_geo2_nidem)))). Qed.
+  aidem_ok ex_geo2 = true /\ (hdr_ok (g_hdr ex_geo2) = true /\ names_canonical ex_geo2 = true /\ cmp_ok ex_geo2 = true).
+Proof. exact (conj ex_geo_wf (conj ex_geo_nwf (conj ex_geo_idem (conj ex_geo_feet (conj ex_geo2_aidem ex_geo2_names))))). Qed.
 Print Assumptions hypotheses_satisfiable.
